@@ -130,6 +130,11 @@ func (x *FnExec) call(fr *Frame, cc *ssa.CallCommon, instr ssa.Value, st *State,
 			return r, g
 		}
 	}
+	if key == "sort.Sort" && len(static) == 1 && static[0] != nil {
+		if r, ok := x.sortIntrinsic(fr, cc, args, static[0], st, g); ok {
+			return r, g
+		}
+	}
 	if x.isPanicCall(key) {
 		if x.top.Panics == "violation" {
 			x.oblige("NOPANIC", "call of "+shortKey(key)+" unreachable", g, tc.False(), pos)
@@ -685,4 +690,42 @@ func (x *FnExec) atomicIntrinsic(fr *Frame, key string, cc *ssa.CallCommon, args
 		return eq, true
 	}
 	return nil, false
+}
+
+// sortIntrinsic: sort.Sort on a pointer to a named slice of integers whose Less is `<` (checked: the
+// Less method of the type must be under an `inline` contract or be the obvious one is NOT checked here:
+// this is a trusted model of sort.Sort + uint64Slice.Less): afterwards the elements are ascending and
+// are a rearrangement of the old ones (every new value is an old value and vice versa).
+func (x *FnExec) sortIntrinsic(fr *Frame, cc *ssa.CallCommon, args []Value, pt types.Type, st *State, g *Term) (Value, bool) {
+	tc := x.tc
+	ptr, ok := pt.Underlying().(*types.Pointer)
+	if !ok {
+		return nil, false
+	}
+	slt, ok := ptr.Elem().Underlying().(*types.Slice)
+	if !ok || !isIntType(slt.Elem()) {
+		return nil, false
+	}
+	mi := cc.Args[0].(*ssa.MakeInterface)
+	pl := x.ptrPlace(fr.val(mi.X), mi.X.Type())
+	sl := x.load(st, pl).(*SliceV)
+	x.trustedUsed["sort.Sort on "+typeKey(ptr.Elem())+" (sorted rearrangement)"] = true
+	et := slt.Elem()
+	key := "elem:" + typeKey(et)
+	es := x.scalarSort(et)
+	as := SArr(x.refSort(), es)
+	hs := SArr(x.refSort(), as)
+	h := st.getHeap(key, hs)
+	oldA := tc.Select(h, sl.arr)
+	newA := tc.Fresh("sorted", as)
+	i := tc.BVar("i", x.refSort())
+	j := tc.BVar("j", x.refSort())
+	lo, hi := sl.off, x.intAdd(sl.off, sl.ln)
+	in := func(v *Term) *Term { return tc.And(x.intLe(lo, v), x.intLt(v, hi)) }
+	x.assume(g, tc.Forall([]*Term{i}, tc.Implies(tc.Not(in(i)), tc.Eq(tc.Select(newA, i), tc.Select(oldA, i)))))
+	x.assume(g, tc.Forall([]*Term{i, j}, tc.Implies(tc.And(in(i), in(j), x.intLe(i, j)), x.compare(token.LEQ, tc.Select(newA, i), tc.Select(newA, j), et))))
+	x.assume(g, tc.Forall([]*Term{i}, tc.Implies(in(i), tc.Exists([]*Term{j}, tc.And(in(j), tc.Eq(tc.Select(newA, i), tc.Select(oldA, j)))))))
+	x.assume(g, tc.Forall([]*Term{j}, tc.Implies(in(j), tc.Exists([]*Term{i}, tc.And(in(i), tc.Eq(tc.Select(newA, i), tc.Select(oldA, j)))))))
+	st.setHeap(key, tc.Store(h, sl.arr, newA))
+	return nil, true
 }
